@@ -4,7 +4,7 @@ import os
 import re
 
 HERE = os.path.dirname(os.path.dirname(os.path.abspath(__file__)))
-STANDIN = re.compile(r"^(model|wf|twin|range|lazy|stale|persist|evict|pickle|merge|conc|setop|multiunion|weighted|conv|"
+STANDIN = re.compile(r"^(nonekey|model|wf|twin|range|lazy|stale|persist|evict|pickle|merge|conc|setop|multiunion|weighted|conv|"
                      r"cmpfault|iter|refcount|alloc|checkers|length|Length):")
 import json
 KEEP = os.path.join(HERE, "seeded", "results.json")      # id -> [verdict, deductive, stand-in]: rows of earlier sweeps
